@@ -19,7 +19,10 @@ namespace Mpir.Printf
 /-! ## Digits (what mpz_get_str produces) -/
 
 def digitTab (upper : Bool) : List Char :=
-  if upper then "0123456789ABCDEFGHIJKLMNOPQRSTUVWXYZ".toList else "0123456789abcdefghijklmnopqrstuvwxyz".toList
+  if upper then ['0', '1', '2', '3', '4', '5', '6', '7', '8', '9', 'A', 'B', 'C', 'D', 'E', 'F', 'G', 'H', 'I', 'J', 'K', 'L', 'M',
+                 'N', 'O', 'P', 'Q', 'R', 'S', 'T', 'U', 'V', 'W', 'X', 'Y', 'Z']
+  else ['0', '1', '2', '3', '4', '5', '6', '7', '8', '9', 'a', 'b', 'c', 'd', 'e', 'f', 'g', 'h', 'i', 'j', 'k', 'l', 'm',
+        'n', 'o', 'p', 'q', 'r', 's', 't', 'u', 'v', 'w', 'x', 'y', 'z']
 
 def digitChar (upper : Bool) (d : Nat) : Char := (digitTab upper).getD d '?'
 
@@ -81,10 +84,9 @@ def signChars (f : Flags) (neg : Bool) : List Char :=
     rather than performing space padding ... If the 0 and - flags both appear, the 0 flag is ignored.  For
     d, i, o, u, x, and X conversions, if a precision is specified, the 0 flag is ignored."
     p6 `-`: left-justified within the field.  p4: width = minimum field width, padded with spaces. -/
-def layoutCore (f : Flags) (width : Nat) (prec : Option Nat) (base : Nat) (upper : Bool)
-    (sign : List Char) (mag : Nat) : List Char :=
+def layoutFrom (f : Flags) (width : Nat) (prec : Option Nat) (base : Nat) (upper : Bool)
+    (sign : List Char) (mag : Nat) (ds0 : List Char) : List Char :=
   let p := prec.getD 1
-  let ds0 := if mag = 0 ∧ p = 0 then [] else natDigits base upper mag
   let ds1 := List.replicate (p - ds0.length) '0' ++ ds0
   let ds := if f.hash ∧ base = 8 ∧ ds1.head? ≠ some '0' then '0' :: ds1 else ds1
   let pre := if f.hash ∧ base = 16 ∧ mag ≠ 0 then (if upper then ['0', 'X'] else ['0', 'x']) else []
@@ -92,6 +94,11 @@ def layoutCore (f : Flags) (width : Nat) (prec : Option Nat) (base : Nat) (upper
   if f.minus then sign ++ pre ++ ds ++ List.replicate pad ' '
   else if f.zero ∧ prec.isNone then sign ++ pre ++ List.replicate pad '0' ++ ds
   else List.replicate pad ' ' ++ sign ++ pre ++ ds
+
+def layoutCore (f : Flags) (width : Nat) (prec : Option Nat) (base : Nat) (upper : Bool)
+    (sign : List Char) (mag : Nat) : List Char :=
+  layoutFrom f width prec base upper sign mag
+    (if mag = 0 ∧ prec.getD 1 = 0 then [] else natDigits base upper mag)
 
 /-- C conversion of an already converted argument: `neg`/`mag` for signed conversions, `mag` alone for
     unsigned ones (`+` and space are defined for signed conversions only; glibc ignores them otherwise,
@@ -172,60 +179,64 @@ def splitSlash : List Char → Option (List Char × List Char)
 def repsMaybe (c : Char) (n : Nat) : List Call := if n ≠ 0 then [.reps c n] else []
 def memoryMaybe (s : List Char) : List Call := if s.length ≠ 0 then [.memory s] else []
 
-/-- `__gmp_doprnt_integer` (printf/doprnti.c:41-134).  `s0` is the get_str string.
-    `old` = the code before commit 68441a0 (no `showbaselen = 0` when precision zeros are present). -/
-def doprntIntegerG (old : Bool) (p : Params) (s0 : List Char) : List Call :=
-  -- :51-58  sign = p->sign; if (s[0] == '-') { sign = s[0]; s++; }  signlen = (sign != '\0')
-  let (sign, s1) : Option Char × List Char := match s0 with
-    | '-' :: t => (some '-', t)
-    | _ => (p.sign, s0)
+/-- `__gmp_doprnt_integer` (printf/doprnti.c) from line 66 on: `sign` is the sign character decided at
+    :54-60, `s` the string after :63-64, `showbase` the prefix chosen at :69-79 (empty = NULL). -/
+def doprntIntegerCore (old : Bool) (p : Params) (sign : Option Char) (s showbase : List Char) : List Call :=
   let signlen : Int := if sign.isSome then 1 else 0
-  -- :61-62  if (*s == '0' && p->prec == 0) s++;
-  let s : List Char := match s1 with
-    | '0' :: t => if p.prec = 0 then t else s1
-    | _ => s1
-  -- :64-65
+  -- :66-67
   let slen : Int := s.length
   let slash := splitSlash s
-  -- :67-78
-  let showbase : List Char :=
-    if p.showbase ≠ .no then
-      (if p.base = 16 then ['0', 'x'] else if p.base = -16 then ['0', 'X'] else if p.base = 8 then ['0'] else [])
-    else []
   let showbaselen0 : Int := showbase.length
-  -- :80-83
+  -- :81-84
   let denShowbaselen : Int :=
     match slash with
     | none => 0
     | some (_, den) => if p.showbase = .nonzero ∧ den.head? = some '0' then 0 else showbaselen0
-  -- :85-86
+  -- :86-87
   let showbaselen1 : Int := if p.showbase = .nonzero ∧ s.head? = some '0' then 0 else showbaselen0
-  -- :89  zeros = MAX (0, p->prec - slen)
+  -- :90  zeros = MAX (0, p->prec - slen)
   let zeros : Int := max 0 (p.prec - slen)
-  -- :92-95  if (zeros > 0 && showbaselen == 1) showbaselen = 0;   (octal: the precision zeros serve as prefix)
+  -- :94-95  if (zeros > 0 && showbaselen == 1) showbaselen = 0;   (octal: the precision zeros serve as prefix)
   let showbaselen : Int := if ¬ old ∧ zeros > 0 ∧ showbaselen1 = 1 then 0 else showbaselen1
-  -- :92-93
+  -- :98-99
   let justlen : Int := p.width - (slen + signlen + showbaselen + denShowbaselen + zeros)
-  -- :95-97
+  -- :101-103
   let justify := if justlen ≤ 0 then Justify.none else p.justify
-  -- :99-100 pad right
+  -- :105-106 pad right
   (if justify = .right then [Call.reps p.fill justlen.toNat] else []) ++
-  -- :102 sign
-  (match sign with | some c => repsMaybe c signlen.toNat | none => []) ++
-  -- :104 base
+  -- :108 sign
+  (match sign with | some c => [Call.reps c 1] | none => []) ++
+  -- :110 base
   memoryMaybe (showbase.take showbaselen.toNat) ++
-  -- :106 zeros
+  -- :112 zeros
   repsMaybe '0' zeros.toNat ++
-  -- :108-109 pad internal
+  -- :114-115 pad internal
   (if justify = .internal then [Call.reps p.fill justlen.toNat] else []) ++
-  -- :113-121 numerator and slash, denominator's base;  :123 number or denominator
+  -- :119-127 numerator and slash, denominator's base;  :129 number or denominator
   (match slash with
    | some (num, den) =>
        if denShowbaselen ≠ 0 then [Call.memory num, Call.memory (showbase.take denShowbaselen.toNat), Call.memory den]
        else [Call.memory s]
    | none => [Call.memory s]) ++
-  -- :125-126 pad left
+  -- :131-132 pad left
   (if justify = .left then [Call.reps p.fill justlen.toNat] else [])
+
+/-- the base prefix chosen at doprnti.c:69-79 -/
+def showbaseStr (p : Params) : List Char :=
+  if p.showbase ≠ .no then
+    (if p.base = 16 then ['0', 'x'] else if p.base = -16 then ['0', 'X'] else if p.base = 8 then ['0'] else [])
+  else []
+
+/-- `__gmp_doprnt_integer` (printf/doprnti.c:41-139).  `s0` is the get_str string.
+    `old` = the code before commit 68441a0 (no `showbaselen = 0` when precision zeros are present). -/
+def doprntIntegerG (old : Bool) (p : Params) (s0 : List Char) : List Call :=
+  -- :54-60  sign = p->sign; if (s[0] == '-') { sign = s[0]; s++; }  signlen = (sign != '\0')
+  let neg : Bool := s0.head? = some '-'
+  let sign : Option Char := if neg then some '-' else p.sign
+  let s1 : List Char := if neg then s0.tail else s0
+  -- :63-64  if (*s == '0' && p->prec == 0) s++;
+  let s : List Char := if s1.head? = some '0' ∧ p.prec = 0 then s1.tail else s1
+  doprntIntegerCore old p sign s (showbaseStr p)
 
 def doprntInteger := doprntIntegerG false
 def doprntIntegerOld := doprntIntegerG true
@@ -257,7 +268,7 @@ structure SnResult where
   ret : Nat                 -- return value of gmp_vsnprintf
   text : List Char          -- bytes stored before the terminator
   stored : Nat              -- bytes stored in all, terminator included
-  deriving Repr
+  deriving Repr, DecidableEq
 
 /-- gmp_vsnprintf (printf/vsnprintf.c): run the calls, then gmp_snprintf_final :141-145 stores the
     terminator if (d->size >= 1). -/
@@ -312,7 +323,7 @@ structure AsResult where
   text : List Char
   block : Nat                -- size of the block handed to the caller
   ok : Bool
-  deriving Repr
+  deriving Repr, DecidableEq
 
 /-- gmp_vasprintf: INIT, calls, __gmp_asprintf_final (asprntffuns.c:62-71: store the terminator at
     buf[size] and reallocate from `alloc` to `size+1` unless equal). -/
